@@ -61,6 +61,7 @@ pub fn run(run: &RunInfo) -> Summary {
             noise: noisy,
             delay_ms: 0,
             focus19: false,
+            rearm_dangling: false,
         };
         let st = dbx::explore(if noisy { 1 } else { 0 }, 200_000_000, |ctx| {
             let o = history(ctx, &p, Some(first), acc);
@@ -95,6 +96,7 @@ pub fn run(run: &RunInfo) -> Summary {
                 noise: false,
                 delay_ms: 0,
                 focus19: false,
+                rearm_dangling: false,
             };
             let (levels, states, transitions, fix) = bfs(&p, 12, &format!("c07/max={max}"), |o| &o.c07, &mut acc);
             acc.count("bfs_states", states as u64);
